@@ -266,6 +266,15 @@ class Typer:
                 self._bind_stmt(node, env, fn, annotated)
         return env
 
+    def _namedtuple_fields(self, t: tuple):
+        """field types, in order, of a value whose class is a typing.NamedTuple of the package (else None)"""
+        if not t or t[0] != "cls":
+            return None
+        c = self.prog.classes.get(t[1])
+        if c is None or not any(b.split(".")[-1] == "NamedTuple" for b in c.base_names):
+            return None
+        return [self.ann(c.module, f.annotation) for f in c.own_fields]
+
     def _bind(self, target: ast.AST, t: tuple, env, annotated) -> None:
         if isinstance(target, ast.Name):
             if target.id in annotated:
@@ -284,8 +293,11 @@ class Typer:
                 ms = members(strip_none(t))
                 if len(ms) == 1:
                     mt = next(iter(ms))
+                    nt = self._namedtuple_fields(mt)
                     if mt[0] == "tuple" and i < len(mt[1]):
                         et = mt[1][i]
+                    elif nt is not None and i < len(nt):
+                        et = nt[i]  # a NamedTuple unpacks into its fields in order
                     else:
                         et = elem(mt)
                 else:
@@ -460,6 +472,19 @@ class Typer:
             d = self.dict_base(c)
             if d is not None:
                 return ("bmeth", d, attr)
+            # a member that only subclasses define (`block.get_tree()` / `block.tree` on a value declared as the
+            # base class, under a `# type: ignore`): the type the subclasses agree on
+            outs = []
+            for k in self.prog.subclasses(c, strict=True):
+                if attr in k.methods:
+                    mk = k.methods[attr]
+                    outs.append(self.ann(mk.module, mk.node.returns) if mk.is_property else ("bound", ("cls", k.name), mk))
+                else:
+                    ik = self.instance_attrs(k)
+                    if attr in ik and not any(attr in self.instance_attrs(p_) for p_ in k.mro()[1:] if p_ is not k):
+                        outs.append(ik[attr])
+            if outs and all(o == outs[0] or (o[0] == "bound" and outs[0][0] == "bound" and ast.dump(o[2].node.returns) == ast.dump(outs[0][2].node.returns) if o[0] == "bound" and o[2].node.returns is not None and outs[0][2].node.returns is not None else o == outs[0]) for o in outs):
+                return outs[0]
             return ANY
         if b[0] == "type":
             c = self.prog.classes.get(b[1])
@@ -502,6 +527,12 @@ class Typer:
                     outs.append(union(*b[1]) if b[1] else ANY)
             elif k == "str":
                 outs.append(STR)
+            elif k == "cls" and self._namedtuple_fields(b) is not None:
+                nt = self._namedtuple_fields(b)
+                if isinstance(e.slice, ast.Constant) and isinstance(e.slice.value, int) and -len(nt) <= e.slice.value < len(nt):
+                    outs.append(nt[e.slice.value])
+                else:
+                    outs.append(union(*nt) if nt else ANY)
             elif k == "cls":
                 c = self.prog.classes.get(b[1])
                 gm = c.find_method("__getitem__") if c else None
